@@ -371,6 +371,10 @@ def boundary_cfgs(kind, r, tier):
             out.append({"k": "bye", "padding": p, "sources": [7], "reason": b"ab", "reason_call": "reason"})
         for ns in range(0, 35):
             out.append({"k": "bye", "padding": 0, "sources": list(range(ns)), "reason": None})
+        for rl in (255, 256, 257, 258, 300, 511, 512, 513):
+            for ns in (0, 1, 31):
+                out.append({"k": "bye", "padding": r.choice(pads_legal), "sources": list(range(ns)), "reason": gen.r_text(r, rl),
+                            "reason_call": r.choice(["reason", "reason_owned"])})
     elif kind in ("sr", "rr"):
         for nb in range(0, 34):
             c = (gen.cfg_sr if kind == "sr" else gen.cfg_rr)(r)
@@ -426,6 +430,11 @@ def boundary_cfgs(kind, r, tier):
                 if vl < 0: continue
                 out.append({"k": "sdes", "padding": r.choice(pads_legal), "chunks": [
                     {"k": "chunk", "ssrc": gen.r_u32(r), "items": [{"type": 8, "value": gen.r_text(r, vl), "prefix": gen.r_bytes(r, pl)}]}]})
+        for pl, vl in ((0, 255), (0, 256), (0, 257), (1, 254), (1, 256), (10, 300), (2, 512), (256, 0), (300, 1), (254, 1), (254, 256)):
+            out.append({"k": "sdes", "padding": r.choice(pads_legal), "chunks": [
+                {"k": "chunk", "ssrc": gen.r_u32(r), "items": [{"type": 8, "value": gen.r_text(r, vl), "prefix": gen.r_bytes(r, pl)}]}]})
+        for vl in (256, 257, 300, 512):
+            out.append({"k": "sdes", "padding": 0, "chunks": [{"k": "chunk", "ssrc": 5, "items": [{"type": 1, "value": gen.r_text(r, vl)}]}]})
         for nc in range(0, 34):
             out.append({"k": "sdes", "padding": 0, "chunks": [{"k": "chunk", "ssrc": i * 0x01000001 & 0xffffffff, "items": [{"type": 1, "value": b"a" * (i % 5)}] if i % 3 else []} for i in range(nc)]})
         for p in pads_all:
@@ -484,6 +493,13 @@ def boundary_cfgs(kind, r, tier):
         for pl in (range(0, 258) if full else [0, 1, 2, 253, 254, 255, 256]):
             for vl in (0, 1, max(0, 254 - pl), max(0, 255 - pl)):
                 out.append({"k": "item", "type": 8, "value": gen.r_text(r, vl), "prefix": gen.r_bytes(r, pl)})
+        # lengths whose low byte is small: a length octet computed modulo 256 would look legal
+        for pl in (0, 1, 10, 100, 254, 255, 256, 300, 510, 511, 512):
+            for vl in (0, 1, 255, 256, 257, 300, 510, 511, 512, 513):
+                if pl + vl > 254:
+                    out.append({"k": "item", "type": 8, "value": gen.r_text(r, vl), "prefix": gen.r_bytes(r, pl)})
+        for vl in (256, 257, 258, 300, 511, 512, 513, 768):
+            out.append({"k": "item", "type": r.choice([1, 2, 7, 255]), "value": gen.r_text(r, vl)})
     elif kind == "chunk":
         for vl in range(0, 12):
             out.append({"k": "chunk", "ssrc": gen.r_u32(r), "items": [{"type": 1, "value": gen.r_text(r, vl)}]})
@@ -493,6 +509,12 @@ def boundary_cfgs(kind, r, tier):
             for _ in range(20):
                 out.append(gen.r_fci(r, fk))
     elif kind == "compound":
+        for extra in (0, 4, 8, 65536):
+            half = {"k": "unknown", "type": 207, "data": bytes(131060), "padding": 0, "count": 0}
+            out.append({"k": "compound", "_big": True, "members": [
+                {"k": "rr", "ssrc": 1, "padding": 0, "rbs": []}, dict(half), dict(half),
+                {"k": "unknown", "type": 192, "data": bytes(extra), "padding": 0, "count": 1},
+                {"k": "bye", "padding": 0, "sources": [7], "reason": None}]})
         out.append({"k": "compound", "members": []})
         out.append({"k": "compound", "members": [{"k": "compound", "members": []}]})
         out.append({"k": "compound", "members": [gen.cfg_rr(r) | {"padding": 0, "rbs": []}, {"k": "compound", "members": []}]})
